@@ -63,6 +63,7 @@ class Spec:
         st.unacked = {}         # sid -> flow-controlled bytes received, not yet acknowledged by the app
         st.reset = set()        # streams the application reset
         st.ended = set()       # streams whose peer side has ended: no further DATA, the windows stay observable
+        st.closed = False      # the peer has sent GOAWAY: every window-changing call raises now, and changes nothing
         st.gone = {}            # their last advertised stream window (the library may still adjust it)
         st.nstreams = 0
         st.resv = set()         # client role: promised streams whose response HEADERS have not arrived (windows exist, no DATA yet)
@@ -73,12 +74,17 @@ class Spec:
     def fingerprint(self, st):
         return fingerprint(st.h.conn, st.Ac, st.acked, tuple(st.pending), tuple(sorted(st.As.items())),
                            tuple(sorted(st.unacked.items())), tuple(sorted(st.reset)), tuple(sorted(st.gone.items())), st.nstreams, st.dead,
-                           tuple(sorted(st.resv)), st.npush, tuple(sorted(st.ended)))
+                           tuple(sorted(st.resv)), st.npush, tuple(sorted(st.ended)), st.closed)
 
     def actions(self, st):
         if st.dead:
             return []
         acts = []
+        if st.closed:
+            for sid in sorted(st.As):
+                acts += ["ack:%d:all" % sid, "ack:%d:over" % sid, "incr:%d:7" % sid]
+            return acts + ["incr:0:7", "ack:101:big"]
+        acts.append("rxgoaway")
         if st.nstreams < self.max_streams:
             acts.append("open")
         if self.client and st.npush < 1 and any(s % 2 and s not in st.ended for s in st.As):
@@ -187,6 +193,12 @@ class Spec:
                 st.dead = True
                 return Step("open-failed", viols, prune=True)
             st.resv.discard(sid)
+        elif parts[0] == "rxgoaway":
+            o = h.rx([wire.goaway(2 ** 31 - 1, 0, b"")])
+            if o.kind != "ok":
+                bad("goaway-rejected", o.brief())
+            st.closed = True
+            out = "rxgoaway"
         elif parts[0] in ("data", "rdata"):
             sid = int(parts[1])
             on_reset = parts[0] == "rdata"
@@ -244,7 +256,7 @@ class Spec:
                 if after != before:
                     bad("failed-call-changed-window", "increment_flow_control_window(%d, stream %d) raised %s but window accessors changed %r -> %r" % (
                         inc, sid, o.exc_name, before, after), call="increment_flow_control_window", exc=o.exc_name)
-                if cur + inc <= MAXW:
+                if cur + inc <= MAXW and not st.closed:
                     bad("valid-increment-refused", "increment %d on window %d refused: %s" % (inc, cur, o.brief()), exc=o.exc_name)
                 out = "incr-raise"
             else:
@@ -272,7 +284,7 @@ class Spec:
                 if after != before:
                     bad("failed-call-changed-window", "acknowledge_received_data(%d, %d) raised %s but window accessors changed %r -> %r" % (
                         n, sid, o.exc_name, before, after), call="acknowledge_received_data", exc=o.exc_name)
-                if known and n >= 0:
+                if known and n >= 0 and not st.closed:
                     bad("valid-ack-refused", "acknowledge_received_data(%d, %d) refused: %s" % (n, sid, o.brief()), exc=o.exc_name)
                 # a hidden credit would show up at the next DATA decided by the unchanged model
                 out = "ack-raise"
